@@ -97,7 +97,7 @@ class RuleRun(object):
         return self
 
     def __exit__(self, et, ev, tb):
-        if et is not None and issubclass(et, (MissingAnchor, Unrecognised, KeyError, IndexError, AttributeError, TypeError, AssertionError, ValueError)):
+        if et is not None and issubclass(et, Exception):  # whatever went wrong while deciding a rule: fail closed, never crash the check
             kind = 'fail-closed'
             why = '%s: %s' % (et.__name__, ev)
             if not issubclass(et, (MissingAnchor, Unrecognised)):
@@ -352,6 +352,16 @@ class Ctx(object):
                         changed = True
         self._obs = obs
         return obs
+
+    def vocab_fields(self, adt):
+        """field names the oracle vocabulary knows for a struct (pinned tree)"""
+        if getattr(self, '_vocab_fields', None) is None:
+            try:
+                with open(os.path.join(VERIF, 'spec', 'vocabulary_fields.json')) as fh:
+                    self._vocab_fields = json.load(fh)
+            except (IOError, ValueError):
+                self._vocab_fields = {}
+        return set(n for n, _, _ in self._vocab_fields.get(adt, []))
 
     def new_const(self, path):
         if getattr(self, '_vocab_consts', None) is None:
